@@ -350,6 +350,8 @@ def _local_child(root, op, name, payload, kill_at, chunk_size):
             be.upload_stream(name, io.BytesIO(payload), len(payload), chunk_size)
         elif op == 'delete':
             be.delete(name)
+        elif op == 'clean':
+            be.clean()
     os._exit(0)
 
 
@@ -370,6 +372,10 @@ def run_local_case(args):
             be0.upload(k, v)
         if old is not None:
             be0.upload(name, old)
+        if op == 'clean':
+            # directories emptied by earlier deletions: clean removes them, whatever is left must stay intact
+            for dname in ('data/zz/yy', 'data/ab/empty', 'snapshots/qq'):
+                (root / dname).mkdir(parents=True, exist_ok=True)
         pid = os.fork()
         if pid == 0:
             try:
@@ -384,7 +390,9 @@ def run_local_case(args):
         model_names = set(others)
         # the object is either in its old or in its new state
         allowed = []
-        if op == 'delete':
+        if op == 'clean':
+            allowed = [old]
+        elif op == 'delete':
             allowed = [old, None]
         else:
             allowed = [old, new]
@@ -412,7 +420,7 @@ def run_local_case(args):
                 problems.append({'what': 'other-object-damaged'})
         if code == 0 and kill_at > 0:
             # operation completed: must be in the new state
-            want = None if op == 'delete' else new
+            want = None if op == 'delete' else old if op == 'clean' else new
             if cur != want:
                 problems.append({'what': 'completed-but-wrong'})
         for p in problems[:1]:
@@ -617,6 +625,7 @@ def main():
         for name in ('data/ab/cd/ef-0123', 'snapshots/ab/cdef-99'):
             lcases.append(('delete', name, b'OLD', None, 8))
             lcases.append(('delete', name, None, None, 8))
+            lcases.append(('clean', name, b'OLD', None, 8))
         nlocal = 0
         for n, vs in common.pmap(run_local_case, common.shuffled(lcases, 'l'), ordered=False, chunksize=2):
             nlocal += n
